@@ -2,25 +2,15 @@
 # Runs every check against every seeded change and every revert-of-fix mutant (scratch copies, 6 in parallel);
 # writes seeded/MATRIX.md and mutants/expect.json (the properties whose check reports each change).
 cd /verif
+# snapshot of the analyser and its reviewed tables: edits made while the corpus runs do not leak into it
+export SNAP=$(mktemp -d /tmp/snap.XXXXXX); mkdir -p $SNAP/bin $SNAP/spec; cp ${DHCPVERIF_BIN:-bin/dhcpverif} $SNAP/bin/dhcpverif; cp spec/*.json $SNAP/spec/; cp known_findings.json $SNAP/; unset DHCPVERIF_BIN
+trap 'rm -rf $SNAP' EXIT
 out=${1:-/verif/seeded/MATRIX.md}
 mkdir -p /tmp/mutout
+ls -d seeded/*/ | sed 's|seeded/||; s|/||' > /tmp/mutout/.names; ls mutants/*.patch | sed 's|mutants/||; s|.patch||' >> /tmp/mutout/.names
 ls -d seeded/*/ | sed 's|seeded/||; s|/||' | xargs -P 8 -I{} tools/runpatch.sh {} seeded/{}/patch.diff /tmp/mutout
 ls mutants/*.patch | sed 's|mutants/||; s|.patch||' | xargs -P 6 -I{} tools/runpatch.sh {} mutants/{}.patch /tmp/mutout
 echo "| change | intended property | properties whose check reports it | rules (first of each) |" > $out
 echo "|---|---|---|---|" >> $out
-python3 - <<'PY' >> $out
-import os,re,json,glob
-exp={}
-names=sorted([os.path.basename(os.path.dirname(p)) for p in glob.glob('/verif/seeded/*/patch.diff')])+sorted([os.path.basename(p)[:-6] for p in glob.glob('/verif/mutants/*.patch')])
-for n in names:
-    t=open('/tmp/mutout/%s.txt'%n).read()
-    intended=n.split('-')[0]
-    if 'DOES NOT APPLY' in t:
-        print('| %s | %s | PATCH DOES NOT APPLY | |'%(n,intended)); continue
-    props=sorted(set(re.findall(r'^VIOLATION property=(C\d+)',t,re.M)))
-    rules=sorted(set(re.findall(r'rule=([A-Za-z0-9-]+)',t)))
-    print('| %s | %s | %s | %s |'%(n,intended,' '.join(props) or 'NONE',' '.join(rules)))
-    exp[n]=props
-json.dump({'_comment':'properties whose quick check reports each change of the corpus (generated by tools/matrix.sh); the thorough tier requires the same','expect':exp},open('/verif/mutants/expect.json','w'),indent=1,sort_keys=True)
-PY
+python3 tools/matrix_report.py >> $out
 grep -c "NONE" $out
